@@ -151,6 +151,7 @@ type Machine struct {
 	traceAllMutex bool
 	domPending   []domFact
 	race         *raceLog
+	raceAll      bool
 	curSendEv    *rEvent
 	lastRecvMatch *rEvent
 	RaceReports  []RaceReport
